@@ -124,6 +124,57 @@ auto __redu_len(const T &value) -> decltype(value.length()) {
 }
 """
 
+FLOORDIV_HELPER_SNIPPET = """template <typename T>
+inline T __redu_floordiv_impl(T a, T b) {
+  T q = a / b;
+  return ((a % b != 0) && ((a < 0) != (b < 0))) ? q - 1 : q;
+}
+
+inline double __redu_floordiv_impl(double a, double b) {
+  double m = fmod(a, b);
+  double q = (a - m) / b;
+  if ((m != 0) && ((m < 0) != (b < 0))) {
+    q -= 1.0;
+  }
+  double f = floor(q);
+  return (q - f > 0.5) ? f + 1.0 : f;
+}
+
+inline float __redu_floordiv_impl(float a, float b) {
+  return static_cast<float>(
+      __redu_floordiv_impl(static_cast<double>(a), static_cast<double>(b)));
+}
+
+template <typename A, typename B>
+inline auto __redu_floordiv(A a, B b) -> decltype(a / b) {
+  typedef decltype(a / b) T;
+  return __redu_floordiv_impl(static_cast<T>(a), static_cast<T>(b));
+}
+"""
+
+MOD_HELPER_SNIPPET = """template <typename T>
+inline T __redu_mod_impl(T a, T b) {
+  T m = a % b;
+  return ((m != 0) && ((m < 0) != (b < 0))) ? m + b : m;
+}
+
+inline double __redu_mod_impl(double a, double b) {
+  double m = fmod(a, b);
+  return ((m != 0) && ((m < 0) != (b < 0))) ? m + b : m;
+}
+
+inline float __redu_mod_impl(float a, float b) {
+  return static_cast<float>(
+      __redu_mod_impl(static_cast<double>(a), static_cast<double>(b)));
+}
+
+template <typename A, typename B>
+inline auto __redu_mod(A a, B b) -> decltype(a / b) {
+  typedef decltype(a / b) T;
+  return __redu_mod_impl(static_cast<T>(a), static_cast<T>(b));
+}
+"""
+
 LIST_HELPER_SNIPPET = """template <typename T>
 struct __redu_list {
   T *data;
@@ -3246,6 +3297,10 @@ def emit(ast: Program) -> str:
         parts.append(LIST_HELPER_SNIPPET + "\n")
     if "len" in helpers:
         parts.append(LEN_HELPER_SNIPPET + "\n")
+    if "floordiv" in helpers:
+        parts.append(FLOORDIV_HELPER_SNIPPET + "\n")
+    if "mod" in helpers:
+        parts.append(MOD_HELPER_SNIPPET + "\n")
     if globals_:
         parts.append("\n".join(globals_) + "\n\n")
     if function_sections:
